@@ -62,7 +62,8 @@ type scriptConn struct {
 	idle     bool // Watch is blocked in Read with nothing to read
 	reads    int
 	endReads int // Read calls answered with readEnd
-	setDeadlineCalls int
+	readDL, armedDL time.Time // read deadline in force / last one armed with SetReadDeadline
+	dlViolation     bool
 	writes   []writeRec
 	gates    map[int32]chan struct{} // held Write calls by sequence number
 	arrived  map[int32]bool
@@ -103,6 +104,9 @@ func (c *scriptConn) Read(p []byte) (int, error) {
 	}
 	defer c.mu.Unlock()
 	for len(c.inbound) == 0 && c.readEnd == nil && !c.closed {
+		if !c.readDL.Equal(c.armedDL) {
+			c.dlViolation = true // about to park under a read deadline somebody else set
+		}
 		c.idle = true
 		c.cond.Broadcast()
 		c.cond.Wait()
@@ -200,13 +204,23 @@ func (c *scriptConn) Close() error {
 
 func (c *scriptConn) LocalAddr() net.Addr                { return nil }
 func (c *scriptConn) RemoteAddr() net.Addr               { return nil }
+// Deadlines are not enforced by the scripted transport (read timeouts are scripted events), but they are tracked: the read
+// deadline in force while a Read is parked must be the one armed for that read with SetReadDeadline (by Watch, per ReadPDU).
 func (c *scriptConn) SetDeadline(t time.Time) error {
 	c.mu.Lock()
-	c.setDeadlineCalls++
+	c.readDL = t
+	if c.idle {
+		c.dlViolation = true // a parked Read had its deadline replaced under it
+	}
 	c.mu.Unlock()
 	return nil
 }
-func (c *scriptConn) SetReadDeadline(t time.Time) error  { return nil }
+func (c *scriptConn) SetReadDeadline(t time.Time) error {
+	c.mu.Lock()
+	c.readDL, c.armedDL = t, t
+	c.mu.Unlock()
+	return nil
+}
 func (c *scriptConn) SetWriteDeadline(t time.Time) error { return nil }
 
 func (c *scriptConn) feed(b []byte) {
@@ -833,10 +847,10 @@ func opConn(args []string) (out string) {
 		// frame fed was decodable or answerable by generic_nack, yet the receive loop ended
 		fail("C16:watch-ended-without-a-terminating-event")
 	}
-	if r.tr.setDeadlineCalls > 0 {
-		// SetDeadline moves the READ deadline too: whoever calls it (the library arms reads with SetReadDeadline in Watch and
-		// writes with SetWriteDeadline in Send) replaces the deadline Watch armed — the read timeout no longer fires when
-		// ReadTimeout says, or fires WriteTimeout after an unrelated write
+	if r.tr.dlViolation {
+		// a Read was parked under a read deadline other than the one armed for it (SetDeadline from a write path moves the
+		// READ deadline too): the read timeout no longer fires when ReadTimeout says, or fires WriteTimeout after an
+		// unrelated write
 		fail("C15:read-deadline-overwritten-outside-Watch")
 	}
 	if readEnded && (!connDone || !r.watchRet) {
